@@ -19,7 +19,7 @@ pub fn def() -> PropDef {
             "Wsr_Zero", "Wsr_Equal", "Wsr_Extend", "Wsr_RoundAtLead", "Wsr_RoundLeftOfLead", "Wsr_RoundInside", "Wsr_Carry", "Wsr_CarryNewDigit",
             "WithScale_Zero", "WithScale_Up", "WithScale_Down", "WithScale_Equal",
         ],
-        rule: "exhaustive small scope: every unscaled value |n| < N (N = 10^4 quick, 10^5 thorough; zero included, both signs) x scale -3..8 x every target scale within 4 of either end of the digit string x 7 modes, judged by an independent i128 model (result scale exact, integer = prescribed neighbour, extension exact, with_scale == Down, round(n) == default mode); all 4200 arguments of round_pair and round_u32 at positions 1..8; seeded decimals up to 3000 digits with tie / near-tie tails, all-nines carries, targets left of the leading digit, zeros. distinct = distinct (value, scale, target, mode) tuples (enumerated ones are distinct by construction); non-trivial = target scale below the input scale of a non-zero value (digits are actually discarded)",
+        rule: "exhaustive small scope: every unscaled value |n| < N (N = 10^4 quick, 10^5 thorough; zero included, both signs) x scale -3..8 x every target scale within 4 of either end of the digit string x 7 modes, judged by an independent i128 model (result scale exact, integer = prescribed neighbour, extension exact, with_scale == Down, round(n) == default mode); all 4200 arguments of round_pair and round_u32 at positions 1..8; exhaustive machine-word boundaries: 192 unscaled integers +-(2^k + d), +-(10^k + d), floor(2^64/10^j) + d, 2^64 - 10^19 + d x scales 0, 5, 19, 20 x 0..23 dropped places x 7 modes; seeded decimals up to 3000 digits with tie / near-tie tails, all-nines carries, targets left of the leading digit, zeros. distinct = distinct (value, scale, target, mode) tuples (enumerated ones are distinct by construction); non-trivial = target scale below the input scale of a non-zero value (digits are actually discarded)",
     }
 }
 
